@@ -33,7 +33,9 @@ pub fn observe(graph: &ModuleGraph, locker: Option<&LockerState>) -> Value {
     .packages
     .mappings()
     .iter()
-    .map(|(k, v)| (k.to_string(), v.to_string()))
+    // keys are compared by range (`@a/b@1` and `@a/b@^1` are one entry whose
+    // text is whichever came first), so show the normalised requirement
+    .map(|(k, v)| (k.to_string_normalized().to_string(), v.to_string()))
     .collect();
   pk.insert("mappings".into(), json!(mappings));
   let mut deps = serde_json::Map::new();
